@@ -53,6 +53,15 @@ func (p *parser) expression(prec int) (Node, error) {
 		return nil, err
 	}
 
+	return p.continuation(node, prec)
+}
+
+// continuation parses the operators and selectors that follow node for as
+// long as they bind tighter than prec. A nil node stands for the current node,
+// which is how the right-hand side of a projection is parsed.
+func (p *parser) continuation(node Node, prec int) (Node, error) {
+	var err error
+
 	newPrec := precedence(p.curr.Type)
 	for newPrec > prec {
 		switch p.curr.Type {
@@ -89,12 +98,20 @@ func (p *parser) expression(prec int) (Node, error) {
 				return nil, err
 			}
 
-			right, err := p.projection(precedence(lexer.ObjectWildcardToken))
+			right, err := p.projection(projectionPrecedence)
 			if err != nil {
 				return nil, err
 			}
 
-			if right == nil {
+			if node == nil {
+				if right == nil {
+					node = PruneArrayCurrentNode{}
+				} else {
+					node = &ProjectArrayCurrentNode{
+						Child: right,
+					}
+				}
+			} else if right == nil {
 				node = &PruneArrayNode{
 					Child: node,
 				}
@@ -140,9 +157,15 @@ func (p *parser) expression(prec int) (Node, error) {
 					return nil, err
 				}
 
-				node = &SelectArraySingleNode{
-					Child: node,
-					Field: ObjectValuesCurrentNode{},
+				if node == nil {
+					node = &SelectArraySingleCurrentNode{
+						Field: ObjectValuesCurrentNode{},
+					}
+				} else {
+					node = &SelectArraySingleNode{
+						Child: node,
+						Field: ObjectValuesCurrentNode{},
+					}
 				}
 			case lexer.OpenBraceToken:
 				if err := p.advance2(); err != nil {
@@ -172,7 +195,9 @@ func (p *parser) expression(prec int) (Node, error) {
 					return nil, err
 				}
 
-				if isProjectNode(node) {
+				if node == nil {
+					node = right
+				} else if isProjectNode(node) {
 					node = &ProjectArrayNode{
 						Left:  node,
 						Right: right,
@@ -215,7 +240,18 @@ func (p *parser) expression(prec int) (Node, error) {
 				return nil, err
 			}
 
-			if right == nil {
+			if node == nil {
+				if right == nil {
+					node = &FilterCurrentNode{
+						Filter: filter,
+					}
+				} else {
+					node = &FilterAndProjectCurrentNode{
+						Filter: filter,
+						Child:  right,
+					}
+				}
+			} else if right == nil {
 				node = &FilterNode{
 					Child:  node,
 					Filter: filter,
@@ -237,7 +273,15 @@ func (p *parser) expression(prec int) (Node, error) {
 				return nil, err
 			}
 
-			if right == nil {
+			if node == nil {
+				if right == nil {
+					node = FlattenCurrentNode{}
+				} else {
+					node = &FlattenAndProjectCurrentNode{
+						Child: right,
+					}
+				}
+			} else if right == nil {
 				node = &FlattenNode{
 					Child: node,
 				}
@@ -350,12 +394,20 @@ func (p *parser) expression(prec int) (Node, error) {
 				return nil, err
 			}
 
-			right, err := p.projection(newPrec)
+			right, err := p.projection(projectionPrecedence)
 			if err != nil {
 				return nil, err
 			}
 
-			if right == nil {
+			if node == nil {
+				if right == nil {
+					node = ObjectValuesCurrentNode{}
+				} else {
+					node = &ProjectObjectCurrentNode{
+						Child: right,
+					}
+				}
+			} else if right == nil {
 				node = &ObjectValuesNode{
 					Child: node,
 				}
@@ -377,7 +429,7 @@ func (p *parser) expression(prec int) (Node, error) {
 			}
 
 			if project {
-				right, err := p.projection(newPrec)
+				right, err := p.projection(projectionPrecedence)
 				if err != nil {
 					return nil, err
 				}
@@ -1637,7 +1689,7 @@ func (p *parser) primaryExpression() (Node, error) {
 			return nil, err
 		}
 
-		child, err := p.projection(precedence(lexer.ObjectWildcardToken))
+		child, err := p.projection(projectionPrecedence)
 		if err != nil {
 			return nil, err
 		}
@@ -1654,7 +1706,7 @@ func (p *parser) primaryExpression() (Node, error) {
 			return nil, err
 		}
 
-		child, err := p.projection(precedence(lexer.ObjectWildcardToken))
+		child, err := p.projection(projectionPrecedence)
 		if err != nil {
 			return nil, err
 		}
@@ -1784,7 +1836,7 @@ func (p *parser) primaryExpression() (Node, error) {
 			}
 
 			if project {
-				right, err := p.projection(precedence(lexer.OpenSqBraceToken))
+				right, err := p.projection(projectionPrecedence)
 				if err != nil {
 					return nil, err
 				}
@@ -1874,195 +1926,18 @@ func (p *parser) primaryExpression() (Node, error) {
 }
 
 func (p *parser) projection(prec int) (Node, error) {
-	var node Node
-	var err error
 	switch p.curr.Type {
-	case lexer.DotToken:
-		switch p.next.Type {
-		case lexer.ArrayWildcardToken:
-			if err := p.advance2(); err != nil {
-				return nil, err
-			}
-
-			node = &SelectArraySingleCurrentNode{
-				Field: ObjectValuesCurrentNode{},
-			}
-		case lexer.OpenBraceToken:
-			if err := p.advance2(); err != nil {
-				return nil, err
-			}
-
-			node, err = p.selectObject(nil)
-			if err != nil {
-				return nil, err
-			}
-		case lexer.OpenSqBraceToken:
-			if err := p.advance2(); err != nil {
-				return nil, err
-			}
-
-			node, err = p.selectArray(nil)
-			if err != nil {
-				return nil, err
-			}
-		case lexer.QuotedIdentifierToken,
-			lexer.UnquotedIdentifierToken:
-			if err := p.advance(); err != nil {
-				return nil, err
-			}
-
-			node, err = p.expression(prec)
-			if err != nil {
-				return nil, err
-			}
-		default:
-			return nil, &unexpectedTokenError{p.curr.Value}
+	case lexer.ArrayWildcardToken,
+		lexer.DotToken,
+		lexer.FilterToken,
+		lexer.ObjectWildcardToken,
+		lexer.OpenSqBraceToken:
+		if precedence(p.curr.Type) > prec {
+			return p.continuation(nil, prec)
 		}
-	case lexer.FilterToken:
-		if err := p.advance(); err != nil {
-			return nil, err
-		}
-
-		filter, err := p.filter()
-		if err != nil {
-			return nil, err
-		}
-
-		node = &FilterCurrentNode{
-			Filter: filter,
-		}
-	case lexer.ObjectWildcardToken:
-		if p.next.Type == lexer.EndToken {
-			if err := p.advance(); err != nil {
-				return nil, err
-			}
-
-			node = ObjectValuesCurrentNode{}
-		} else {
-			p.setCurrent(lexer.Token{
-				Type:  lexer.AsteriskToken,
-				Value: p.curr.Value[1:],
-			})
-
-			node, err = p.expression(prec)
-			if err != nil {
-				return nil, err
-			}
-		}
-	case lexer.OpenSqBraceToken:
-		if err := p.advance(); err != nil {
-			return nil, err
-		}
-
-		node, _, err = p.index(nil)
-		if err != nil {
-			return nil, err
-		}
-	default:
-		return nil, nil
 	}
 
-	newPrec := precedence(p.curr.Type)
-	for newPrec > prec {
-		switch p.curr.Type {
-		case lexer.DotToken:
-			switch p.next.Type {
-			case lexer.ArrayWildcardToken:
-				if err := p.advance2(); err != nil {
-					return nil, err
-				}
-
-				node = &SelectArraySingleNode{
-					Child: node,
-					Field: ObjectValuesCurrentNode{},
-				}
-			case lexer.OpenBraceToken:
-				if err := p.advance2(); err != nil {
-					return nil, err
-				}
-
-				node, err = p.selectObject(node)
-				if err != nil {
-					return nil, err
-				}
-			case lexer.OpenSqBraceToken:
-				if err := p.advance2(); err != nil {
-					return nil, err
-				}
-
-				node, err = p.selectArray(node)
-				if err != nil {
-					return nil, err
-				}
-			case lexer.QuotedIdentifierToken,
-				lexer.UnquotedIdentifierToken:
-				if err := p.advance(); err != nil {
-					return nil, err
-				}
-
-				node, err = p.expression(newPrec)
-				if err != nil {
-					return nil, err
-				}
-			default:
-				return nil, &unexpectedTokenError{p.curr.Value}
-			}
-		case lexer.FilterToken:
-			if err := p.advance(); err != nil {
-				return nil, err
-			}
-
-			filter, err := p.filter()
-			if err != nil {
-				return nil, err
-			}
-
-			node = &FilterNode{
-				Child:  node,
-				Filter: filter,
-			}
-		case lexer.ObjectWildcardToken:
-			if p.curr.Type == lexer.EndToken {
-				if err := p.advance(); err != nil {
-					return nil, err
-				}
-
-				node = &ObjectValuesNode{
-					Child: node,
-				}
-			} else {
-				p.setCurrent(lexer.Token{
-					Type:  lexer.AsteriskToken,
-					Value: p.curr.Value[1:],
-				})
-
-				right, err := p.expression(newPrec)
-				if err != nil {
-					return nil, err
-				}
-
-				node = &ProjectObjectNode{
-					Left:  node,
-					Right: right,
-				}
-			}
-		case lexer.OpenSqBraceToken:
-			if err := p.advance(); err != nil {
-				return nil, err
-			}
-
-			node, _, err = p.index(node)
-			if err != nil {
-				return nil, err
-			}
-		default:
-			return nil, &unexpectedTokenError{p.curr.Value}
-		}
-
-		newPrec = precedence(p.curr.Type)
-	}
-
-	return node, nil
+	return nil, nil
 }
 
 func (p *parser) selectArray(child Node) (Node, error) {
@@ -2185,10 +2060,6 @@ func (p *parser) selectObject(child Node) (Node, error) {
 			}, nil
 		}
 	}
-}
-
-func (p *parser) setCurrent(tok lexer.Token) {
-	p.curr = tok
 }
 
 func parseJSONLiteral(s string) (Node, error) {
